@@ -50,9 +50,10 @@ Theorem C07_output_id_same : forall (ps : float -> string) (s m : node) (tag : o
 Proof. exact fit_output_same. Qed.
 
 (* ---------------- reload from the fit's own files ---------------- *)
-(* every composition inside the guard (everything but -x / abs x and components without a free parameter;
+(* every composition inside the guard (everything but exactly rebuildable components without a free parameter;
    arithmetic priors under ANY caller-derived names, list-built collections, all prior families, all searches)
-   reloads to a possibly different tree with the same visible part *)
+   reloads to a possibly different tree with the same visible part.  (Since 8d274ac / 0b56c35 the guard also
+   contains -x / abs x and every parameter-free component the constructor cannot rebuild exactly.) *)
 Theorem C07_roundtrip_same_description : forall n : node,
   reload_ok n = true -> exists n', reload n = Some n' /\ strip (reify n') = strip (reify n).
 Proof. exact reload_same. Qed.
@@ -71,8 +72,9 @@ Proof. exact roundtrip_refuted. Qed.
 Theorem C07_roundtrip_fixed_model_refuted : changes_on_reload fixed_inside.
 Proof. exact reload_changes_fixed_model. Qed.
 
-Theorem C07_roundtrip_modified_prior_refuted : reload negated_model = None /\ reload negated_sum_model = None.
-Proof. exact reload_fails_negated. Qed.
+(* only the EXACT parameter-free component still changes: one with an extra attribute reloads unchanged *)
+Theorem C07_roundtrip_inexact_fixed_model : reload_ok fixed_with_extra = true /\ reload fixed_with_extra = Some fixed_with_extra.
+Proof. exact fixed_with_extra_reloads. Qed.
 
 (* ---------------- sensitive: local changes are visible in the joined description ---------------- *)
 (* in any context (any object around it, through visible selected keys and sequences), a change whose own
